@@ -300,6 +300,9 @@ func replayUnits(tier string) []runner.Unit {
 			for i, capacity := range caps {
 				for _, kind := range []string{"first-twice", "twice"} {
 					run(u, rparams{UDP: true, TP: "nil", Kind: kind, When: when, Capacity: capacity, Seed: int64(200 + i)})
+					if when != "after-close" {
+						continue
+					}
 					// after the server's 5 s housekeeping tick has forgotten the closed session
 					run(u, rparams{UDP: true, TP: "nil", Kind: kind, When: when, Wait: 6 * time.Second, Capacity: capacity, Seed: int64(200 + i)})
 				}
